@@ -560,7 +560,7 @@ def r_trait_fn_calls(sig, body, arg):
     """R1: `Felt::fft(` / `Felt::ifft(` (trait default methods at Self := Felt) -> the extracted
     free functions felt_fft / felt_ifft; `self.clone()` on Polynomial -> vx_clone_poly(self)."""
     n = 0
-    body, c = _sub(r"\bFelt::(fft|ifft)\(", r"felt_\1(", body); n += c
+    body, c = _sub(r"\bFelt::(fft|ifft|batch_inverse_or_zero)\(", r"felt_\1(", body); n += c
     body, c = _sub(r"\bself\.clone\(\)", "vx_clone_poly(self)", body); n += c
     return sig, body, n
 
@@ -671,7 +671,7 @@ def r_rev_range(sig, body, arg):
     """R4 (+R13 when a literal type suffix is given as argument): `for I in (A..B).rev() {` ->
     `for vx_r in A..B { let I = (B) - 1 - (vx_r - (A));`"""
     suf = arg or ""
-    body, n = _sub(r"for\s+(\w+)\s+in\s+\((\w+)\.\.(\w+)\)\.rev\(\)\s*\{",
+    body, n = _sub(r"for\s+(\w+)\s+in\s+\((\w+)\.\.([\w.]+(?:\(\))?)\)\.rev\(\)\s*\{",
                    r"for vx_r in \2%s..\3%s {\n                let \1 = \3%s - 1 - (vx_r - \2%s);" % (suf, suf, suf, suf), body)
     return sig, body, n
 
@@ -731,6 +731,30 @@ def r_float_scale63(sig, body, arg):
     return sig, body, n
 
 
+def r_for_in_slice(sig, body, arg):
+    """R4/R4b: `for X in <arg> {` over a slice of Copy elements -> index loop, X by value."""
+    from . import extract as X
+    pat = re.compile(r"for\s+(\w+)\s+in\s+%s\s*\{" % re.escape(arg))
+    n = 0
+    while True:
+        m = pat.search(body)
+        if not m:
+            break
+        bo = m.end() - 1
+        bc = X.match_brace(X.mask(body), bo)
+        inner, _ = _strip_deref(body[bo + 1:bc], [m.group(1)])
+        body = (body[:m.start()] + "for vx_i in 0..%s.len() {\n            let %s = %s[vx_i];" % (arg, m.group(1), arg)
+                + inner + body[bc:])
+        n += 1
+    return sig, body, n
+
+
+def r_var_opassign(sig, body, arg):
+    """operator-assign desugaring on a plain variable: `<arg> OP= E;` -> `<arg> = <arg> OP E;`"""
+    body, n = _sub(r"\b%s\s*([+\-*])=\s*([^;]+);" % re.escape(arg), r"%s = %s \1 \2;" % (arg, arg), body)
+    return sig, body, n
+
+
 RULES = {
     "Self": r_self,
     "Generic": r_generic,
@@ -759,6 +783,8 @@ RULES = {
     "IterLoop": r_iter_loop,
     "TailLet": r_tail_let,
     "FloatScale63": r_float_scale63,
+    "ForInSlice": r_for_in_slice,
+    "VarOpAssign": r_var_opassign,
 }
 RULE_IDS = {"Self": "R1", "Generic": "R1", "BoolAssign": "R2", "ForUnderscore": "R3",
             "BitVecIndex": "R6"}
